@@ -31,7 +31,7 @@ CHECKS = {
     floors={'C04.fromint': {'out-of-range->NaN': 0.08}, 'C04.toint': {'k-not-representable->0': 0.20}}),
  'C05': dict(
     rule="float and double bit patterns (exponent-uniform, specials, ties) through three conversion spellings, finite raw x through fixed->float/double and the double round trip, and an enumeration of float bit patterns (strided quick, all 2^32 thorough); non-trivial = non-finite / out of range, inexact, exact tie, |v| >= 2^30, float rounding needed, round-trip band",
-    clauses=[rc('C05.f32', 6000000, 160000000), rc('C05.f64', 8000000, 100000000), rc('C05.tofp', 6000000, 240000000), sweep('C05.f32sweep')],
+    clauses=[rc('C05.f32', 6000000, 160000000), rc('C05.f64', 8000000, 100000000), rc('C05.tofp', 6000000, 240000000), sweep('C05.f32sweep'), sweep('C05.f64lattice'), sweep('C05.tofplattice')],
     floors={'C05.f64': {'inexact': 0.30, 'exact-tie': 0.01}, 'C05.f32': {'inexact': 0.10}}),
  'C06': dict(
     rule="pairs of raw values incl. both NaN sentinels (equal, adjacent, mirrored) x six comparisons; single values for isnan / negation / abs; non-trivial = a NaN or +-MAXF operand, |a-b| <= 1, |x| >= 2^62",
